@@ -78,6 +78,7 @@ func runC01(c *Ctx) {
 	runC01PodRequest(c)
 	runC01Snapshot(c)
 	runC01NewGroup(c)
+	runC01MaxOrientation(c)
 	borrow(c, "O10", "C14", "O5", "NodeInfo.{Idle,Used,Releasing}", "the fit test reads NodeInfo.Idle: a function outside the accounting API that changes it (an explanatory helper adding to an alias of Idle) lets later pods of the cycle fit capacity that does not exist")
 	borrow(c, "O8", "C13", "O5", "Commit does not call Discard", "a failing commit must not undo allocations whose bind requests were already emitted: the pods get bound while the session has freed their resources")
 
